@@ -11,7 +11,7 @@ RULE = ("every string up to the length bound over alphabets of 1..4 letters (and
         "find_neighbor_pairs_index, calculate_neighbor_numbers, isdist1; nndist_hamming over all 4-letter strings x all reference subsets; "
         "non-trivial = non-empty expected neighbourhood")
 ASSUMPTIONS = ["alphabets of more than 4 letters only through the default 20-letter alphabet on short strings"]
-REQUIRED_CLASSES = {"all": ["empty-string", "homopolymer", "repeated-run", "letter-outside-alphabet", "position-subset", "default-20-letter-alphabet", "nndist-cutoff", "mixed-length-reference", "more-than-255-neighbours", "one-shot-iterator-positions", "neighbourhood-with-repeats", "empty-reference", "query-longer-than-every-reference"]}
+REQUIRED_CLASSES = {"all": ["empty-string", "homopolymer", "repeated-run", "letter-outside-alphabet", "position-subset", "default-20-letter-alphabet", "nndist-cutoff", "mixed-length-reference", "more-than-255-neighbours", "one-shot-iterator-positions", "neighbourhood-with-repeats", "empty-reference", "query-longer-than-every-reference", "interleaved-generators", "stored-set-neighbourhood"]}
 MIN_OUTCOMES = 10
 AA = "ACDEFGHIKLMNPQRSTVWY"
 
@@ -102,6 +102,44 @@ def check_case(case, acc):
                     acc.fail("hamming_neighbors/%s" % ("raised" if raised(r) else "repeated" if len(r) != len(set(r)) else "set"), ("ham", x, alpha, None if pos is None else tuple(pos)), sorted(exp)[:10], r if raised(r) else sorted(r)[:10])
                     return
                 acc.ok(("ham", len(r)), nontrivial=bool(exp))
+        # two generators alive at the same time (consumed in lock step): each still yields its own exact neighbourhood
+        if x and alpha != AA and all(c in alpha for c in x):
+            acc.cls("interleaved-generators")
+            x2 = x[::-1] if x[::-1] != x else (x[1:] + x[:1] if len(set(x)) > 1 else x + alpha[-1])
+            for fname, fn, step in (("hamming_neighbors", pyrepseq.hamming_neighbors, naive_one_sub), ("levenshtein_neighbors", pyrepseq.levenshtein_neighbors, naive_one_edit)):
+                def both():
+                    g1, g2 = fn(x, alpha), fn(x2, alpha)
+                    o1, o2 = [], []
+                    for a_, b_ in itertools.zip_longest(g1, g2):
+                        if a_ is not None:
+                            o1.append(a_)
+                        if b_ is not None:
+                            o2.append(b_)
+                    return o1, o2
+                r = acc.call(both)
+                e1, e2 = step(x, alpha), step(x2, alpha)
+                if raised(r) or len(r[0]) != len(e1) or set(r[0]) != e1 or len(r[1]) != len(e2) or set(r[1]) != e2:
+                    acc.fail("%s/two-generators-in-lock-step" % fname, ("gen", x, alpha), {"first": sorted(e1)[:8], "second": sorted(e2)[:8]}, r if raised(r) else {"first": sorted(r[0])[:8], "second": sorted(r[1])[:8]}, note="second string %r" % x2)
+                    return
+                acc.ok()
+        # a neighbourhood given as a look-up in the caller's own adjacency table (stored sets / lists): the table is the caller's
+        if len(x) <= 3 and alpha != AA and all(c in alpha for c in x):
+            acc.cls("stored-set-neighbourhood")
+            for box in (set, list, frozenset):
+                table = {}
+
+                def stored(y, box=box):
+                    if y not in table:
+                        table[y] = box(naive_one_sub(y, alpha))
+                    return table[y]
+                for md in (2, 1):
+                    r = acc.call(pyrepseq.next_nearest_neighbors, x, stored, maxdistance=md)
+                    exp = set(ref_ball(x, alpha, md, step=naive_one_sub)) - {x}
+                    bad_table = [y for y, v in table.items() if set(v) != naive_one_sub(y, alpha) or len(v) != len(naive_one_sub(y, alpha))]
+                    if raised(r) or set(r) != exp or bad_table:
+                        acc.fail("next_nearest_neighbors/stored-%s-neighbourhood%s" % (box.__name__, "/callers-table-modified" if bad_table else ""), ("gen", x, alpha), sorted(exp)[:10], r if raised(r) else sorted(r)[:10], note="maxdistance=%d after maxdistance=2; modified entries: %r" % (md, bad_table[:3]))
+                        return
+                    acc.ok()
         # next_nearest_neighbors
         if len(x) <= (4 if len(alpha) <= 2 else 3) and alpha != AA:
             for md in (1, 2, 3):
